@@ -1029,7 +1029,7 @@ class Dec(Suite):
                     if gr.write_tree(data, hs, b"no/such/dir") is not None:
                         mism(c, "write-tree finds a directory S does not have")
             # 5. what git writes back
-            if c.get("reencode") and not (b"IEOT" in data and be32(data, 4) == 4):
+            if c.get("reencode") and b"IEOT" not in data:      # S keeps no offset table (git writes it only with index.threads > 1)
                 st["s_reencode_exact"] += 1
                 if not (isinstance(s[4], list) and unparse(s[4][0]) == obytes(data)):
                     mism(c, "git_encode (git_decode b) <> b: %s / %s" % (unparse(s[4])[:200], obytes(data)))
